@@ -150,6 +150,7 @@ MUTANTS = {
     "dual_queue_returns_stale": M(SDATA, "        bestItem = self._RGlobalQueue.GetBestItem()\n        while bestItem[1] != bestItem[0].globalR:", "        bestItem = self._RGlobalQueue.GetBestItem()\n        while False and bestItem[1] != bestItem[0].globalR:", ["C19"]),
     "queue_min_instead_of_max": M(SDATA, "        return self.__baseQueue.popfirst()", "        return self.__baseQueue.poplast()", ["C19", "C02"]),
     "refinement_without_bounds": M(PROCESS, "options={'maxiter': self.localMethodIterationCount}, bounds=bounds)", "options={'maxiter': self.localMethodIterationCount})", ["C05"], note="revert of fix 5"),
+    "image_not_clamped_to_the_box": M(EVOL, "            self.yValues[i] = min(max(value, self.lowerBoundOfFloatVariables[i]), self.upperBoundOfFloatVariables[i])", "            self.yValues[i] = value", ["C05"], note="revert of fix 11"),
     "density_ignored": M("iOpt/solver.py", "problem.numberOfFloatVariables, parameters.evolventDensity)", "problem.numberOfFloatVariables)", ["C20"], note="revert of fix 6"),
     "base_listener_signature": M("iOpt/method/listener.py", "    def OnMethodStop(self, searchData: SearchData, solution: Solution, status: bool):\n        pass\n\n    def OnRefrash", "    def OnMethodStop(self, searchData: SearchData):\n        pass\n\n    def OnRefrash", ["C13"], note="revert of fix 4"),
     "delta_against_wrong_neighbour": M(METHOD, "        newpoint.delta = Method.CalculateDelta(oldpoint.GetLeft().GetX(), newpoint.GetX(), self.dimension)", "        newpoint.delta = Method.CalculateDelta(oldpoint.GetLeft().GetX(), oldpoint.GetX(), self.dimension)", ["C06", "C02"]),
